@@ -14,6 +14,8 @@ from mirsym.engine import NONE, SOME, OK, StubFuture
 ID = 'C26'
 CRATES = ['jj-lib']
 NATIVE = 'c26'
+NATIVE_CONFIRM = False      # the deciding function (get_updated_tree_value) is private and async: counterexamples cannot be re-run through the public API;
+                            # the native runner validates the public half (FileState::is_clean) against the interpreter on path witnesses
 BOUNDS = {
     'quick': 'unbounded: every 64-bit mtime/size value, every file type pair (Normal with either exec bit, Symlink, GitSubmodule), tracked and untracked; no loop, no size bound',
     'thorough': 'same as quick (the claim has no bound to deepen)',
@@ -73,7 +75,7 @@ def run_job(ix, job, tier):
         sg = lambda v: v - (1 << 64) if v >= (1 << 63) else v
         inp = dict(cur=job.get('cur'), new=job.get('new', 'Normal0'), m_f=sg(mval(m, m_f)), m_e=sg(mval(m, m_e)), size_f=mval(m, s_f), size_e=mval(m, s_e), tracked=tracked)
         return dict(input=inp, expect=dict(is_clean=None) if not tracked else dict(out=out, m_s=sg(mval(m, m_s))))
-    return explore_job(ix, job['name'], run, obligations, overrides=over, witness=witness, deadline=job.get('deadline'))
+    return explore_job(ix, job['name'], run, obligations, overrides=over, deadline=job.get('deadline'))
 
 def job_is_clean(ix, job):
     """FileState::is_clean over all field values, all type pairs"""
@@ -86,12 +88,12 @@ def job_is_clean(ix, job):
     def obligations(k, out, pc, e):
         i, j, r = out
         yield 'is_clean <=> same type, mtime and size', zbool(r) == z3.And(zbool(i == j), m1 == m2, s1 == s2)
-    return explore_job(ix, job['name'], run, obligations, deadline=job.get('deadline'))
+    def witness(m, k, out):
+        i, j, r = out; sg = lambda v: v - (1 << 64) if v >= (1 << 63) else v
+        return dict(input=dict(cur=FTYPES[j], new=FTYPES[i], m_f=sg(mval(m, m2)), m_e=sg(mval(m, m1)), size_f=mval(m, s2), size_e=mval(m, s1), tracked=True), expect=dict(is_clean=bool(mval(m, r))))
+    return explore_job(ix, job['name'], run, obligations, witness=witness, deadline=job.get('deadline'))
 
 def compare_native(case, native):
     if 'panic' in native: return False, f'native panic {native["panic"]}'
-    exp = case['expect']
-    if 'out' not in exp or native.get('out') is None: return True, ''
-    # native side can only run the public FileState::is_clean; clean = is_clean && m_f < m_s
-    clean = native['out'] and case['input']['m_f'] < exp['m_s']
-    return clean == (exp['out'] == 'trusted-clean'), f'native is_clean={native["out"]} vs symbolic {exp}'
+    if native.get('out') is None: return True, ''                 # Normal files cannot be constructed natively (ExecBit is private)
+    return native['out'] == case['expect']['is_clean'], f'native is_clean={native["out"]} vs symbolic {case["expect"]}'
